@@ -1,0 +1,39 @@
+//go:build verif
+
+package keeper
+
+import (
+	tmbytes "github.com/cometbft/cometbft/libs/bytes"
+	sdk "github.com/cosmos/cosmos-sdk/types"
+
+	"mods.irisnet.org/modules/service/types"
+)
+
+// VerifTapCallbacks wraps every registered module callback with a recorder that forwards to
+// the original. The callback maps are shared by all copies of the keeper, so tapping any
+// copy taps the one the end blocker uses. Compiled only with the "verif" build tag.
+func (k Keeper) VerifTapCallbacks(
+	onResp func(ctx sdk.Context, module string, requestContextID tmbytes.HexBytes, responses []string, err error),
+	onState func(ctx sdk.Context, module string, requestContextID tmbytes.HexBytes, cause string),
+) {
+	for name, cb := range k.respCallbacks {
+		name, cb := name, cb
+		k.respCallbacks[name] = types.ResponseCallback(
+			func(ctx sdk.Context, id tmbytes.HexBytes, responses []string, err error) {
+				if onResp != nil {
+					onResp(ctx, name, id, responses, err)
+				}
+				cb(ctx, id, responses, err)
+			})
+	}
+	for name, cb := range k.stateCallbacks {
+		name, cb := name, cb
+		k.stateCallbacks[name] = types.StateCallback(
+			func(ctx sdk.Context, id tmbytes.HexBytes, cause string) {
+				if onState != nil {
+					onState(ctx, name, id, cause)
+				}
+				cb(ctx, id, cause)
+			})
+	}
+}
